@@ -1044,12 +1044,19 @@ func (g *gen) finishTop(fc *fnCtx) {
 					l0 = fmt.Sprint(k + 1)
 				}
 				nm := fmt.Sprintf("post:%s:%s@%s", fnKeyQ(fc.fn), l0, rs.lbl(i))
+				final := nm // the name oblige() would give it
+				if n := g.occ[nm] + 1; n > 1 {
+					final = fmt.Sprintf("%s#%d", nm, n)
+				}
 				keep := false
 				for _, p := range g.onlyPats {
-					keep = keep || globMatch(p, nm)
+					keep = keep || globMatch(p, final)
 				}
 				if !keep {
-					continue // outside the unit's scope: not even generated (saves the expansion of its spec functions)
+					// outside the unit's scope: not even generated (saves the expansion of its spec functions); its
+					// occurrence is still counted so that the `#N` suffixes of the generated ones do not depend on the filter
+					g.occ[nm]++
+					continue
 				}
 			}
 			sc := fc.specCtxRet(rs)
